@@ -16,8 +16,13 @@ Oracles:
   chp.pattern      all 2^T on/off patterns pinned on the REAL asset problem (HiGHS feasibility) vs the
                    run-length specification and the automaton (model via driver + Python transcription)
   chp.first_ramp   min / max of the first-step virtual dispatch on the REAL asset problem vs
-                   [last − ramp, last + ramp] (F-06a: direction up; lower bound with tar = 0)
+                   [last − ramp, last + ramp]
+  chp.start_flag   probe: start flag without off->on transition; start bounds untouched by the initial state
   chp.capacity, chp.ramp, chp.heat_share, chp.fuel, chp.start_flag    recomputed from an optimised portfolio
+Facts `kind` of deviations that are recorded findings of the current tree (decided by known_findings.json, not
+here): 'spurious_start' (F-06b), 'first_step_lower_too_tight' with tar = 0 (F-06c), 'guard_not_in_steps' (F-06d).
+Every other kind ('first_step_ramp_up', 'first_step_shutdown_excluded', 'ramp_conv_index', 'ramp_step',
+'start_forced_by_bound', 'pattern_vs_spec', …) is a plain violation (F-06a, F-06e, F-06f are repaired in /repo).
 """
 import copy
 import itertools
@@ -199,11 +204,10 @@ def gen_case(rnd, kind='build', tmax=10):
     # ramp
     if kind == 'pattern':
         if rnd.random() < 0.5:
-            # a ramp that never binds: max_cap <= 11 = ramp; when already running the code's first-step row
-            # `v0 - ramp*on0 <= last + max_cap0 - ramp` additionally needs ramp <= last + max_cap0 to allow a stop at step 0
-            args['ramp'] = 11.
+            # a ramp that never binds (max_cap <= 11 per main time unit)
+            args['ramp'] = rnd.choice([11., 64.])
             if state in ('running', 'both'):
-                args['last_dispatch'] = q8(rnd, 8, 11)
+                args['last_dispatch'] = q8(rnd, 0, 11)
     elif rnd.random() < 0.65:
         args['ramp'] = q8(rnd, 0.5, 6)
         if rnd.random() < 0.7:
@@ -378,6 +382,8 @@ def compare(case, ir, mr):
     out = cmp_problem('chp', mr['problem'], ir['problem'], tol, aspects=('c', 'l', 'u', 'rows', 'mapping'))
     info = mr.get('info')
     if info:
+        if not info.get('commit_ok', True):
+            out.append('chp: the resolved inputs violate `CHPR.commitOK` (hypothesis of commit_rows_iff_spec)')
         for k in ('heat_idx', 'on_idx', 'start_idx'):
             if k in ir['attrs'] and ir['attrs'][k] != info[k]:
                 # the attribute of the object is only meaningful where the variable block exists
@@ -623,21 +629,25 @@ def oracle_spurious_start(case, ir, info):
     if T < 2:
         return [], {}
     on0, st0 = asset.on_idx, asset.start_idx
+    viol = []
+    if np.any(op.l[st0:st0 + T] != 0) or np.any(op.u[st0:st0 + T] != 1):
+        viol.append(V('chp.start_flag', 'bounds of the start variables are not [0, 1]: l = %s, u = %s (initial-state bounds belong to the on variables only)' % (
+            op.l[st0:st0 + T].tolist(), op.u[st0:st0 + T].tolist()), kind='start_forced_by_bound', probe=True))
     lb, ub = op.l.copy(), op.u.copy()
     lb[on0:on0 + T] = 1
     st, _, _ = highs(op, lb=lb, ub=ub)
     if st != 'optimal':
-        return [], {'spurious': 'all-on not admissible'}
+        return viol, {'spurious': 'all-on not admissible'}
     k = T - 1
-    forced = bool(op.l[st0 + k] >= 1)
     lb[st0 + k] = 1
     st, _, _ = highs(op, lb=lb, ub=ub)
     if st == 'optimal':
         P = params_on_grid(case, asset)
         free = P['start_costs'][k] == 0 and P['start_fuel'][k] == 0
-        return [V('chp.start_flag', 'on at every step and start flag 1 at step %d (no off->on transition) is feasible in the real asset problem' % k,
-                  kind='spurious_start', forced_by_bound=forced, free=bool(free), probe=True)], {'spurious': True}
-    return [], {'spurious': False}
+        viol.append(V('chp.start_flag', 'on at every step and start flag 1 at step %d (no off->on transition) is feasible in the real asset problem' % k,
+                      kind='spurious_start', free=bool(free), probe=True))
+        return viol, {'spurious': True}
+    return viol, {'spurious': False}
 
 
 # ------------------------------------------------------------------------------------------- (b) optimised portfolio
@@ -670,8 +680,12 @@ def oracle_portfolio(case):
         sel = sel[sel['node'] == node] if node is not None else sel[sel['node'].isna()]
         v = np.zeros(T)
         for idx, r in zip(sel.index, sel.to_dict('records')):
-            v[int(np.where(I == r['time_step'])[0][0])] = x[idx]
+            k = int(np.where(I == r['time_step'])[0][0])
+            v[k] = x[idx]
+            if var_name == 'bool_start':
+                start_lower[k] = op.l[idx]
         return v, len(sel) > 0
+    start_lower = np.zeros(T)
     power, _ = series('disp', case['nodes'][0])
     has_heat = case['cls'] == 'CHPAsset'
     heat = series('disp', case['nodes'][1])[0] if has_heat else np.zeros(T)
@@ -728,13 +742,14 @@ def oracle_portfolio(case):
             viol.append(V('chp.fuel', 'step %d: fuel node dispatch %.8g, expected -(v/eta) - cons*on - start_fuel*start = %.8g' % (t, got[t], exp[t]), kind='fuel', **facts))
     # start flags
     if has_start:
-        lpos = asset.start_idx
         for t in range(T):
             prev = (1. if tar > 0 else 0.) if t == 0 else on_r[t - 1]
             trans = 1. if (on_r[t] == 1 and prev == 0) else 0.
             if start_r[t] != trans:
                 paid = P['start_costs'][t] != 0 or P['start_fuel'][t] != 0
                 kind = 'missed_start' if trans == 1 else 'spurious_start'
+                if trans == 0 and start_lower[t] >= 1:
+                    kind = 'start_forced_by_bound'
                 viol.append(V('chp.start_flag', 'step %d: start flag %d but on goes %d -> %d (start costs %.6g, start fuel %.6g)' % (
                     t, start_r[t], prev, on_r[t], P['start_costs'][t], P['start_fuel'][t]), kind=kind, free=not paid, probe=False, **facts))
                 break
